@@ -296,6 +296,7 @@ def _run_unit_once(unit, verify_args, tier, seed, prefixes, res, pulls):
         res["tool_errors"].append(f"unsupported: {ex}")
         return None
     res["meta"] = meta
+    res["lost"] = meta.get("lost", [])
     res["rewrites"] = meta["rewrites"]
     res["functions"] = meta["functions"]
     res["notdecided"] = meta["notdecided"]
